@@ -70,7 +70,7 @@ static void prop(Tape &t, Ctx &c) {
         } else if (op < 215) {                // deliver next legit unit with a structured mutation
             Bytes u; if (!pending.empty()) { u = pending.front(); pending.pop_front(); } else u = { 22, 3, 3, 0, 4, 1, 0, 0, 0 };
             uint8_t kind = t.u8(); size_t o = u.empty() ? 0 : t.u16() % u.size(); mutated++;
-            switch (kind % 10) {
+            switch (kind % 12) {
             case 0: u[o] ^= (uint8_t) (1 << (t.u8() & 7)); break;
             case 1: u[o] = t.u8(); break;
             case 2: if (o + 1 < u.size()) { uint16_t v = t.u16(); u[o] = (uint8_t) (v >> 8); u[o + 1] = (uint8_t) v; } break;      // length fields
@@ -81,6 +81,10 @@ static void prop(Tape &t, Ctx &c) {
             case 7: if (u.size() >= (dt ? 13u : 5u)) { size_t h = dt ? 11 : 3; uint16_t v = (kind & 0x80) ? 0xffff : (uint16_t) (u.size() - (dt ? 13 : 5) + (int8_t) t.u8()); u[h] = (uint8_t) (v >> 8); u[h + 1] = (uint8_t) v; } break; // record length
             case 8: if (u.size() >= (dt ? 25u : 9u)) { size_t h = (dt ? 13 : 5) + 1; uint32_t v = t.u8() & 1 ? 0xffffff : (uint32_t) t.u16(); u[h] = (uint8_t) (v >> 16); u[h + 1] = (uint8_t) (v >> 8); u[h + 2] = (uint8_t) v; } break; // handshake length
             case 9: if (dt && u.size() >= 25) { size_t h = 13 + 6; for (int i = 0; i < 6; i++) u[h + i] = t.u8() & ((kind & 0x80) ? 0xff : 0x03); } else if (!u.empty()) u[0] = (uint8_t) (20 + t.u8() % 5); break;   // DTLS fragment offset/length, or record type
+            case 10: { // hello-aware: session-id length / following vector lengths of a ClientHello/ServerHello in this unit
+                size_t hb = (dt ? 13 + 12 : 5 + 4); if (u.size() > hb + 35 && u[0] == 22 && (u[dt ? 13 : 5] == 1 || u[dt ? 13 : 5] == 2)) { size_t sidoff = hb + 34; uint8_t v = t.u8(); if (kind & 0x80) { u[sidoff] = v; } else { size_t o2 = sidoff + 1 + u[sidoff]; if (o2 + 1 < u.size()) { u[o2] = v; u[o2 + 1] = t.u8(); } } } break; }
+            case 11: { // first bytes of the handshake body (vector length prefixes of Certificate, KeyExchange, CertificateRequest, NewSessionTicket...)
+                size_t hb = (dt ? 13 + 12 : 5 + 4); if (u.size() > hb + 8 && u[0] == 22) { size_t k = t.u8() % 8; u[hb + k] = t.u8(); } break; }
             }
             deliver(u);
             if (t.u8() & 1 && !pending.empty()) { /* also deliver the original afterwards */ }
